@@ -21,7 +21,11 @@ Inductive macro :=
 | MCont (t : tid) (mask : Z)                          (* a parked goroutine continues to its next park point *)
 | MFire (key : key)                                   (* the pending timeout timer of that item fires *)
 | MGcAll                                              (* every pending tomb GC timer fires *)
-| MClose (k : Z) | MLost (k : Z) | MDrained (k : Z).
+| MClose (k : Z) | MLost (k : Z) | MDrained (k : Z)
+| MStep1 (t : tid) (mask : Z).
+    (* ONE instruction of a parked goroutine (C10, engine_c10timer.go): the OnTimer goroutine runs
+       its marking (ITimerRun) and is held before relayItems.Entomb takes the lock -- by the
+       too-many-tombstones warning inside Entomb (RelayMaxTombs = 1) or at the lock itself *)
 
 (* the connection whose sendCh an instruction tries to enqueue on *)
 Definition enq_conn (i : instr) : Z :=
@@ -149,6 +153,11 @@ Definition mstep (cf : config) (st : state) (m : macro) : option state :=
          goroutine that decremented pending (ICheck, already executed in the model) or by the
          check of the closing goroutine itself (the label LDrained) *)
       if c_state (get_conn st k) =? c_connectionClosed then Some st else step cf st (LDrained k)
+  | MStep1 t mask =>
+      match lookup tid_eqb t (threads st) with
+      | Some (i :: _) => step cf st (LStep t (room_for mask i))
+      | _ => None
+      end
   end.
 
 Fixpoint mrun_all (cf : config) (st : state) (ms : list macro) (n : Z) : state * Z :=
@@ -184,6 +193,8 @@ Definition take_macro (l : list Z) : macro * list Z :=
   | 4 :: k :: r => (MClose k, r)
   | 5 :: k :: r => (MLost k, r)
   | 6 :: k :: r => (MDrained k, r)
+  | 8 :: 0 :: k :: mask :: r => (MStep1 (TR k) mask, r)
+  | 8 :: 1 :: tm :: mask :: r => (MStep1 (TT tm) mask, r)
   | 7 :: k :: r =>
       let '(f, r1) := take_frame r in
       match r1 with
